@@ -390,7 +390,8 @@ func c13Segmenter() *c13machine {
 var c13Paragraphs = []wCase{
 	{Text: []rune("aa a aa"), Runs: []wRun{{Dir: 0, Clusters: []wCluster{{2, 1}, {1, 1}, {1, 1}, {1, 1}, {2, 2}}}}},
 	{Text: []rune("aa a aa"), Runs: []wRun{{Dir: 0, Clusters: []wCluster{{1, 1}, {1, 1}, {1, 1}, {1, 1}, {1, 1}, {1, 1}, {1, 1}}}}},
-	{Text: []rune("א ab\nא"), Runs: []wRun{{Dir: 1, Clusters: []wCluster{{1, 1}, {1, 1}}}, {Dir: 0, Clusters: []wCluster{{1, 1}, {1, 1}, {1, 1}}}, {Dir: 1, Clusters: []wCluster{{1, 1}}}}},
+	// 7 runes like paragraphs 0, 1 and 4: the caller's paragraph buffer is edited in place between calls (see below)
+	{Text: []rune("א ab\nאב"), Runs: []wRun{{Dir: 1, Clusters: []wCluster{{1, 1}, {1, 1}}}, {Dir: 0, Clusters: []wCluster{{1, 1}, {1, 1}, {1, 1}}}, {Dir: 1, Clusters: []wCluster{{1, 1}, {1, 1}}}}},
 	{Text: []rune("a"), Runs: []wRun{{Dir: 0, Clusters: []wCluster{{1, 1}}}}},
 	// same text, rune count, glyph count and direction as paragraph 0, clusters placed elsewhere
 	{Text: []rune("aa a aa"), Runs: []wRun{{Dir: 0, Clusters: []wCluster{{2, 2}, {1, 1}, {1, 1}, {1, 1}, {2, 1}}}}},
@@ -452,13 +453,26 @@ func c13Wrapper() *c13machine {
 		var since []int
 		var keepLines []shaping.Line
 		keepImg := ""
+		// the caller of the object under test keeps its paragraphs in one rune buffer per length and overwrites it in place
+		// for the next call (the wrapper documents no ownership of the paragraph once a call has returned, and a pending
+		// Prepare is over once the next Prepare/WrapParagraph starts); the fresh wrappers get private copies
+		parBuf := map[int][]rune{}
+		callerText := func(t []rune) []rune {
+			b := parBuf[len(t)]
+			if b == nil {
+				b = make([]rune, len(t))
+				parBuf[len(t)] = b
+			}
+			copy(b, t)
+			return b
+		}
 		for step, op := range ops {
 			last := step == len(ops)-1
 			switch {
 			case op < nWrap:
 				p := build(op/(nc*nw), (op/nw)%nc, &seg)
 				w := c13Widths[op%nw]
-				lines, tr := lw.WrapParagraph(p.config(), w, append([]rune(nil), p.c.Text...), shaping.NewSliceIterator(p.copyRuns()))
+				lines, tr := lw.WrapParagraph(p.config(), w, callerText(p.c.Text), shaping.NewSliceIterator(p.copyRuns()))
 				img := linesImage(lines, tr)
 				prepared = -1
 				keepLines, keepImg = lines, img
@@ -473,7 +487,7 @@ func c13Wrapper() *c13machine {
 				prepared = op - nWrap
 				since = since[:0]
 				p := build(prepared/nc, prepared%nc, &seg)
-				lw.Prepare(p.config(), append([]rune(nil), p.c.Text...), shaping.NewSliceIterator(p.copyRuns()))
+				lw.Prepare(p.config(), callerText(p.c.Text), shaping.NewSliceIterator(p.copyRuns()))
 				keepLines, keepImg = nil, ""
 			default:
 				w := c13Widths[op-nWrap-nPrep]
@@ -596,7 +610,7 @@ func c13Replay(raw json.RawMessage, r *mc.Reporter) {
 func init() {
 	Register(&mc.Check{
 		ID: "C13", Level: "model_checking",
-		Rule: "explicit exploration of every operation history up to the tier's depth on 7 real objects: HarfbuzzShaper (7 inputs over 4 faces incl. two faces of one variable Font with different variations, sizes, features, directions; SetFontCacheSize 0/1/2; SetVariations on a cached face), harfbuzz.Buffer (6 inputs: fonts, directions, flags, cluster levels, global and ranged features, sub-ranges with context), font.Face x3 fonts (SetVariations/SetCoords/SetPpem interleaved with extents, advances, glyph data), shaping.Segmenter (6 inputs), LineWrapper (WrapParagraph / Prepare / WrapNextLine over 5 paragraphs (two differing only in cluster placement) x 3 configs x 3 widths); " +
+		Rule: "explicit exploration of every operation history up to the tier's depth on 7 real objects: HarfbuzzShaper (7 inputs over 4 faces incl. two faces of one variable Font with different variations, sizes, features, directions; SetFontCacheSize 0/1/2; SetVariations on a cached face), harfbuzz.Buffer (6 inputs: fonts, directions, flags, cluster levels, global and ranged features, sub-ranges with context), font.Face x3 fonts (SetVariations/SetCoords/SetPpem interleaved with extents, advances, glyph data), shaping.Segmenter (6 inputs), LineWrapper (WrapParagraph / Prepare / WrapNextLine over 5 paragraphs (two differing only in cluster placement; four of equal length, handed over in one caller buffer that is overwritten in place between calls) x 3 configs x 3 widths); " +
 			"oracles: the last call equals the same call on freshly constructed objects carrying the same settings; Outputs returned by a shaper never change; lines stay unchanged until the next Prepare/WrapParagraph. Non-trivial = history of >= 2 operations",
 		Assumptions: []string{"histories are enumerated without hidden-state merging; every trace runs on the implementation", "segmenter.Segmenter reuse is covered by C06; the wrapper's writes into the caller's glyph slices are not judged (inputs are rebuilt for every call)"},
 		Shards:      c13Shards, Run: c13Run, Replay: c13Replay,
